@@ -147,7 +147,11 @@ def same_target_case(item):
         r, _ = pj.run(['redo-ifchange', 'top'], verif_log=False)
         if r.rc != 0:
             return dict(verdict='inconclusive', why='could not initialise the project: %s' % r.err[-200:], sample=dict(item=list(item)))
-        new = {'new-checksum': 'v1\nrest1\n', 'same-checksum': 'v0\nother\n', 'none': None}[change]
+        new = {'new-checksum': 'v1\nrest1\n', 'same-checksum': 'v0\nother\n', 'none': None, 'removed': None}[change]
+        if change == 'removed':
+            # generated files removed by hand: whoever looks at them first (a build or a query) finds a target that has gone missing
+            for n in ('st', 'side.leaf'):
+                os.unlink(os.path.join(pj.top, n))
         if new:
             common.write_file(os.path.join(pj.top, 'src'), new)
             os.utime(os.path.join(pj.top, 'src'), ns=(int(time.time() * 1e9) + 5 * 10 ** 9,) * 2)
@@ -155,8 +159,8 @@ def same_target_case(item):
         for i in range(ninv):
             argv = rnd.choice([['redo-ifchange', 'top'], ['redo-ifchange', 'top'], ['redo', 'top'], ['redo', '-j3', 'top'], ['redo-ifchange', 'mid', 'top'], ['redo-ifchange', 'st']])
             cmds.append(dict(argv=argv, delay=rnd.random() * 0.05))
-        for q in range(nquery):
-            cmds.append(dict(argv=[rnd.choice(['redo-ood', 'redo-targets', 'redo-sources'])], delay=rnd.random() * 0.2))
+        for q in range(nquery + (4 if change == 'removed' else 0)):
+            cmds.append(dict(argv=[rnd.choice(['redo-ood', 'redo-ood', 'redo-targets', 'redo-sources'])], delay=rnd.random() * 0.2))
         res = pj.run_many(cmds, timeout=90, barrier=(seed % 2 == 0))
         obs['invocations'] = len(cmds)
         for c, r in zip(cmds, res):
@@ -203,9 +207,60 @@ def same_target_case(item):
     return r
 
 
+def ood_missing_case(item):
+    """Only queries, on a built project from which generated files have been removed by hand: redo-ood meets targets that have gone
+    missing (and wants to note that) while other commands start up and allocate their run ids.  Nothing may fail."""
+    _, nq, nood, seed = item
+    files = {'default.leaf.do': 'echo leaf > $3\n',
+             'default.mid.do': 'redo-ifchange $2.leaf a$2.leaf b$2.leaf\ncat $2.leaf > $3\n',
+             'top.do': 'redo-ifchange 1.mid 2.mid 3.mid 4.mid 5.mid 6.mid 7.mid 8.mid\necho top > $3\n'}
+    pj = scen.Project(files, 'c16o')
+    anoms = []
+    obs = dict(rounds=1, invocations=0, failed_invocations=0, query_only_rounds=1)
+    sets = {}
+    try:
+        r, _ = pj.run(['redo-ifchange', 'top'], verif_log=False)
+        if r.rc != 0:
+            return dict(verdict='inconclusive', why='could not initialise the project', sample=dict(item=list(item)))
+        for n in os.listdir(pj.top):
+            if n.endswith('.leaf'):
+                os.unlink(os.path.join(pj.top, n))
+        rnd = random.Random(repr(item))
+        cmds = [dict(argv=[rnd.choice(['redo-targets', 'redo-sources'])], delay=rnd.random() * 0.01) for _ in range(nq)]
+        cmds += [dict(argv=['redo-ood'], delay=rnd.random() * 0.005) for _ in range(nood)]
+        res = pj.run_many(cmds, timeout=90, barrier=(seed % 2 == 0))
+        obs['invocations'] = len(cmds)
+        for c, r in zip(cmds, res):
+            name = c['argv'][0]
+            if r.status == 'timeout':
+                return dict(verdict='inconclusive', why='watchdog without stuck witness', sample=dict(item=list(item)))
+            for a in scen.crash_anoms(r, '', 'c16'):
+                anoms.append(dict(key='c16-' + a['key'], what='%s: %s' % (c['argv'], a['what'])))
+            if r.status == 'exit' and r.rc != 0:
+                obs['failed_invocations'] += 1
+                text = (r.err + r.out)
+                m = ERR_RE.search(text)
+                ec = scen.classify_error(text) or ('other:' + (m.group(0).lower() if m else 'rc=%s' % r.rc))
+                anoms.append(dict(key='spurious-failure:queries-with-missing-targets:%s:%s' % (name, ec),
+                                  what='%s exited %s among %d concurrent queries on a project whose generated leaves were removed by hand: %s'
+                                       % (c['argv'], r.rc, len(cmds), text[-300:].replace('\n', ' | '))))
+            sets.setdefault('commands', set()).add(name)
+    finally:
+        pj.close()
+    r = dict(verdict='violated' if anoms else 'held', nontrivial=True, shape=common.shash(list(item)),
+             sample=dict(kind='queries-with-missing-targets', queries=nq, ood=nood), obs=obs, sets={k: sorted(v) for k, v in sets.items()})
+    if anoms:
+        seen = set()
+        r['violations'] = [a for a in anoms if not (a['key'] in seen or seen.add(a['key']))]
+        r['replay'] = dict(kind='c16', item=list(item))
+    return r
+
+
 def dispatch(item):
     if item[0] == 'same':
         return same_target_case(tuple(item))
+    if item[0] == 'oodmiss':
+        return ood_missing_case(tuple(item))
     return case(tuple(item))
 
 
@@ -214,7 +269,7 @@ RULE = ('rounds of n in {2,4,8,16} invocations released within a few millisecond
         'project and on a project without .redo (first-creation race); with delay hooks inside start-up (between the existence test and '
         'connect, between the schema read and the run-id insert). All scripts succeed by construction, so every invocation must exit 0; '
         'afterwards integrity_check = ok, every target of a successful invocation has its Files row, its declared Deps edges and its file. '
-        'Same-target rounds: 2-5 invocations (redo-ifchange / redo / redo -j3, plus queries) all ask for one chain top -> mid -> checksummed st -> src after a change below the checksummed target (checksum kept, changed, or no change): they meet each other at the locks and on the out-of-band path; every one exits 0, afterwards the chain holds the new content, redo-ood works, no temporary output is left (what redo-ood lists is counted, not judged: run ids of concurrent commands can make a parent look older than a dependency built by a later-started run). Every round is non-trivial; distinct = parameter tuple (incl. seed).')
+        'Same-target rounds: 2-5 invocations (redo-ifchange / redo / redo -j3, plus queries) all ask for one chain top -> mid -> checksummed st -> src after a change below the checksummed target (checksum kept, changed, no change, or the checksummed target and a leaf removed by hand, with four more queries): they meet each other at the locks and on the out-of-band path; every one exits 0, afterwards the chain holds the new content, redo-ood works, no temporary output is left (what redo-ood lists is counted, not judged: run ids of concurrent commands can make a parent look older than a dependency built by a later-started run). Query-only rounds: 4-8 redo-targets / redo-sources and 1-3 redo-ood released together on a built project whose generated leaves were removed by hand (redo-ood meets targets that have gone missing while others allocate run ids): every query exits 0. Every round is non-trivial; distinct = parameter tuple (incl. seed).')
 ASSUME = ['only targets known to redo are queried with redo-log', 'script-attributable failures are impossible by construction']
 
 
@@ -231,8 +286,10 @@ def main(tier):
                     items.append((ninv, fresh, shared, rnd.choice([0, 2, 6]), rnd.choice(delays), rnd.randrange(10 ** 6)))
     for rep in range(4 if quick else 40):
         for ninv in (2, 3, 5):
-            for change in ('new-checksum', 'same-checksum', 'none'):
+            for change in ('new-checksum', 'same-checksum', 'none', 'removed'):
                 items.append(('same', ninv, change, rnd.choice([0, 2]), rnd.randrange(10 ** 6)))
+    for rep in range(10 if quick else 120):
+        items.append(('oodmiss', rnd.choice([4, 6, 8]), rnd.choice([1, 2, 3]), rnd.randrange(10 ** 6)))
     rnd.shuffle(items)
     deadline = time.time() + (80 if quick else 800)
     # rounds are themselves parallel: run a few at a time so that invocations really coincide
